@@ -118,6 +118,8 @@ def extra_checks(rng, tier, us, oc):
     reqs, where = [], []
     for g, idx in groups.items():
         by = {us[i]["params"]["out"]: i for i in idx}
+        if any(o not in by for o in OUTS):
+            continue        # an incomplete group (a corpus unit on its own): judged per unit only
         full0 = oc.impl[by["pst"]]
         if isinstance(full0.get("bins"), list) and len(full0["bins"]) == 0:
             # no bin at all (a cover that fills nothing): largest / smallest / extreme / difference of an empty list of sums are
